@@ -393,12 +393,14 @@ class RetryExecutor(CanCustomizeBind, Executor):
 
                     break
 
-        # This shouldn't be possible.
-        # - Future holds a lock on itself, and has checked that it's not already done
-        # - The only other path for removing a job is in delegate_callback, but the
-        #   job is only removed *after* set_result/set_exception which would wait
-        #   for the future's lock.
-        assert found_job, "Cancel called on orphan %s" % future
+        if not found_job:
+            # There's no job for this future right now: it is just being
+            # handed over to the delegate executor (possibly further up the
+            # stack of this very thread, if the delegate runs callables
+            # synchronously), or the submit thread is just about to resolve
+            # it. Either way, it's too late to cancel.
+            self._log.debug("No job to cancel for %s", future)
+            return False
 
         self._log.debug("Try cancel delegate: %s", found_job)
 
